@@ -237,3 +237,66 @@ def r4(ctx):
 
 
 RULES = [r1, r2, r3, r4]
+
+
+def canonical_variant_functions(crate):
+    """functions that pick the minimum over group-compatible variants keyed on a weak shape
+    (today: proven_proven_pre_shape)"""
+    out = []
+    for b in crate.fns():
+        mins = [c for c in b.all_calls() if c.callee and c.callee.name in ("min_by_key", "min_by", "min")]
+        if not mins:
+            continue
+        ws = [c for c in b.all_calls() if c.callee and c.callee.name == "weak_shape"]
+        var = [c for c in b.all_calls() if c.callee and "variants" in (c.callee.name or "")]
+        if ws and var:
+            out.append(b.id)
+    return sorted(out)
+
+
+@rule("R5", doc="congruence alignment: a 'found' ProvenContains carries the canonical variant of its node")
+def r5(ctx):
+    crate = ctx.lib()
+    cv = set(C.need("canonical-variant", canonical_variant_functions(crate)))
+    ctx.roleset("canonical-variant", sorted(cv))
+    reach_cv = {b.id for b in crate.fns() if cv & crate.reachable_from([b.id], resolve_traits=False)}
+    # the positional aligner: two weak_shape calls whose bijections are composed (match_pcs)
+    aligners = []
+    for b in crate.fns():
+        ws = [c for c in b.calls if c.callee and c.callee.name == "weak_shape"]
+        comp = [c for c in b.calls if c.callee and c.callee.name in ("compose_fresh", "compose", "compose_partial")
+                and any(role_mentions_call(b.role_of_operand(a), "weak_shape") for a in c.args)]
+        pcs = [l for l in range(1, b.argc + 1) if "ProvenContains" in b.local_ty(l)]
+        if len(ws) >= 2 and comp and len(pcs) >= 2:
+            aligners.append(b.id)
+    C.need("positional aligner (match_pcs)", aligners)
+    ctx.roleset("positional-aligner", aligners)
+    n = 0
+    for b in crate.fns():
+        for bi, si, s in b.statements():
+            rv = s["rv"] if s["k"] == "assign" else None
+            if not rv or rv["k"] != "agg" or not str(rv.get("adt", "")).endswith("ProvenContains"):
+                continue
+            fields = rv.get("fields", [])
+            if "pai" not in fields or "node" not in fields:
+                continue
+            pai = b.role_of_operand(rv["ops"][fields.index("pai")])
+            node = b.role_of_operand(rv["ops"][fields.index("node")])
+            sp = strip_role(pai)
+            if not (isinstance(sp, tuple) and sp[0] == "call" and "find_applied_id" in sp[1]):
+                continue
+            n += 1
+            sn = strip_role(node)
+            ok = False
+            if isinstance(sn, tuple) and sn[0] == "call":
+                site = b.call_at.get(sn[4])
+                tgt = site.callee.target if site and site.callee else None
+                ok = tgt in reach_cv
+            ctx.check(ok, "found-pc-is-canonical:" + C.fkey(b),
+                      "the up-to-date ProvenContains pairs find(pai) with the canonical group variant of its node: %s" % role_str(node),
+                      "in %s an up-to-date ProvenContains is built with node = %s, which is not the canonical (minimal weak-shape) group variant; the congruence step aligns two such nodes position by position, so two nodes of equal strong but different weak shape get a wrongly permuted slot map (unsound union)" % (C.short(b.id), role_str(node)),
+                      where_of(b, bi, s.get("line")))
+    ctx.floor("found-ProvenContains constructions", n, 1)
+
+
+RULES.append(r5)
